@@ -1537,9 +1537,13 @@ func (e *Entry) merge(prefix *Value, namespace *Value, oe *Entry) {
 			e.addError(er.Errors[0])
 		} else {
 			v.Parent = e
-			v.Exts = append(v.Exts, oe.Exts...)
+			// v is a copy whose slices still share their backing arrays
+			// with the original: append into a full slice so that the
+			// original (and other copies) are never written.
+			v.Exts = append(v.Exts[:len(v.Exts):len(v.Exts)], oe.Exts...)
 			for lk := range oe.Extra {
-				v.Extra[lk] = append(v.Extra[lk], oe.Extra[lk]...)
+				x := v.Extra[lk]
+				v.Extra[lk] = append(x[:len(x):len(x)], oe.Extra[lk]...)
 			}
 			e.Dir[k] = v
 		}
